@@ -390,7 +390,7 @@ func checkC11(c *run.Ctx) {
 				r.Shuffle(len(names), func(i, j int) { names[i], names[j] = names[j], names[i] })
 				dims = names[:ndims]
 			}
-			pool := []string{"x", "y", "z", "w", "", "1", "true", "{{matrix}}"}
+			pool := []string{"x", "y", "z", "w", "", "1", "true", "{{matrix}}", "3.1", "3.10", "01", "1.0", "+1", "1e3", "1000", "inf", "Infinity", "0x10", "16"}
 			ms := refmodel.MatrixSpec{Dims: dims, Values: map[string][]string{}}
 			for _, d := range dims {
 				k := r.IntN(4)
